@@ -182,7 +182,7 @@ def oracle(M, kind, arg):
         if kind == "durdec":
             try:
                 D.Duration.decode(arg)
-            except ValueError:
+            except (ValueError, OverflowError):      # OverflowError: more days than a timedelta can hold
                 return True
             return bool(RE_DUR.fullmatch(arg)) and arg[-1] not in "PT"
         if kind == "date":
@@ -190,7 +190,8 @@ def oracle(M, kind, arg):
             return bool(RE_DATE.fullmatch(e)) and D.Date.decode(e) == datetime(*arg)
         if kind == "dt":
             v = mk_dt(arg); e = D.DateTime.encode(v); r = D.DateTime.decode(e)
-            return bool(RE_DT.fullmatch(e)) and r == v and r.utcoffset() == v.utcoffset()
+            lex = bool(RE_DT.fullmatch(e)) or (arg[7] is not None and arg[7] % 60 != 0)   # a seconds offset has no xsd form
+            return lex and r == v and r.utcoffset() == v.utcoffset()
         if kind == "rgb":
             try:
                 e = M["color"].rgb2hex(tuple(arg))
@@ -203,6 +204,14 @@ def oracle(M, kind, arg):
             except ValueError:
                 return True
             return bool(RE_COL.fullmatch(arg))
+        if kind == "css":
+            from odfdo.const import CSS3_COLORMAP
+            if arg.lower() not in CSS3_COLORMAP:
+                return True
+            e = M["color"].rgb2hex(arg)
+            return bool(RE_COL.fullmatch(e)) and M["color"].hex2rgb(e) == tuple(CSS3_COLORMAP[arg.lower()])
+    except OverflowError:
+        return True
     except Exception:
         return False
     return True
@@ -480,7 +489,7 @@ def run(tier, seed, replay=None):
     hard_found = bool(violations)
     if ((not proofs["ok"]) or errors) and not hard_found:
         # look for a concrete failing input with the direct oracle before giving the no-input verdict
-        pool = kept if tier == "thorough" or replay else [(k, a) for k, a in gen_inputs("thorough", random.Random(seed), css)][:200000]
+        pool = kept if tier == "thorough" or replay else kept + gen_inputs("thorough", random.Random(seed), css)
         for kind, arg in pool:
             if not oracle(M, kind, arg):
                 rp = common.write_replay(PROP, seed, "oracle", dict(layer="python-oracle: the property fails on this input", case=[kind, arg],
